@@ -125,12 +125,25 @@ T = [
      {"C14": "C14:lib:edit:assert-not-reached:..., C14:lib:edit:assert:dbus-string.c:..."}, ""),
     ("C15-b", "C15", "sub-agent (round 2)", "pending-fd timer re-armed whenever the pending count drops but stays above zero",
      "surplus descriptor (announce 1, attach 2) followed by well-formed fd messages at intervals shorter than pending_fd_timeout",
-     {"C15": "see INDEX note"},
-     "first missed: C15 gained the surplus-then-steady-traffic history shape (final status in DESIGN 10.6)"),
+     {"C15": "C15:pending-timeout-not-enforced:surplus-with-traffic"},
+     "first missed: C15 gained the surplus-then-steady-traffic history shape (bound t0 + 4T + 10 s, inconclusive first)"),
     ("C16-b", "C16", "sub-agent (round 2)", "interface validator looks for '.' in the whole DBusString instead of the given range",
      "predicate reached through message parsing (sub-range of the header buffer) with a one-element name followed by a '.' later in the header",
      {"C01": "C01:accepted-but-invalid:bad-interface-name:no-dot", "C16": "C16:interface:verdict-depends-on-surrounding-bytes"},
      "first missed by C16 (caught by C01): the C16 harness now also evaluates every predicate on the same bytes embedded in a larger string"),
+    ("C17-b", "C17", "sub-agent (round 2)", "_dbus_connection_remove_pending_call returns early when the call's timeout is no longer registered",
+     "cancel of a call with infinite timeout, or whose reply is queued but not dispatched, or whose timeout error is queued",
+     {"C17": "C17:cancelled-call-notified, C17:completed-after-cancel"}, ""),
+    ("C18-b", "C18", "sub-agent (round 2)", "monitor filter's destination= compared with org.freedesktop.DBus whenever there is no addressed recipient",
+     "selective monitor filter with a destination= key + a message to a name without owner (or from a connection that has not said Hello)",
+     {"C18": "see DESIGN 10.6"},
+     "first missed: monitor filters gained the destination= key (unique, owned, ownerless names and the bus name)"),
+    ("C19-b", "C19", "sub-agent (round 2)", "activation helper compares the declared Name with the requested one by prefix",
+     "service file <N>.service whose Name= has N as a strict prefix",
+     {"C19": "C19:helper-executed:file:name-mismatch"}, ""),
+    ("C20-b", "C20", "sub-agent (round 2)", "find_subtree_recurse drops the 'deeper lookup failed and this node is a fallback' step",
+     "fallback at P, a non-fallback node strictly below P, a call that passes through that node and leaves the tree",
+     {"C20": "C20:dispatch-order:missing-handler"}, ""),
     ("C14-a", "C14", "sub-agent", "RemoveMatch removes first and re-adds on ack failure, ignoring a failing re-add",
      "two consecutive allocation failures during RemoveMatch of a held rule",
      {"C14": "C14:state-changed-but-NoMemory:removematch"},
